@@ -8,6 +8,7 @@ package main
 import (
 	"context"
 	"fmt"
+	"strings"
 	"sync"
 
 	gg "verif/harness/graphgen"
@@ -213,6 +214,10 @@ func concurrentPhase(c *gg.Case, goroutines, perG int) (string, string) {
 		return "", "" // a value outgrew the size budget of the harness lambdas: no verdict
 	}
 	if bad != "" {
+		if goroutines == 1 {
+			// one goroutine: the runs follow each other (what an earlier run leaves behind in the compiled object)
+			return strings.Replace(bad, "that overlapped with other runs of", "that followed other runs of", 1), "c01:rerun"
+		}
 		return bad, "c01:concurrent"
 	}
 	return "", ""
